@@ -16,8 +16,9 @@ CLAIMED = {
             "Static necessary conditions on all paths and call chains: finality decided over epsilon-closed sets in "
             "accepts / subset construction / epsilon-removal; copy, to_deterministic, remove_epsilon_transitions, "
             "minimize read every component of their operand with the right roles; advertised result classes; eclose "
-            "is a closure over epsilon edges; merged names injective. Decides these clauses for every automaton; does "
-            "not decide that the constructions compute the right values."),
+            "is a closure over epsilon edges; merged names injective; Epsilon never enters the alphabet / a deterministic "
+            "table; the optional start state is compared with None, not tested for truthiness. Decides these clauses for "
+            "every automaton; does not decide that the constructions compute the right values."),
     "C02": ("typestate (minimised-DFA) check on every path into the isomorphism walk + dependence analysis of the walk "
             "and of the partition refinement",
             "Static necessary conditions: both arguments of the isomorphism walk are results of minimize() on DFAs on "
@@ -56,8 +57,8 @@ CLAIMED = {
     "C10": ("fresh-name / capture-avoidance analysis of substitute + operand-flow and delegation rules",
             "Static necessary conditions: every head renamed, un-renamed body symbols only when not a variable of the "
             "operand, shared counter, total name building, templates eliminated through substitute with both operands "
-            "in body order, reverse reverses bodies, operators delegate. The denotation of the templates is not "
-            "decided."),
+            "in body order, reverse reverses bodies, operators delegate; the optional start symbol is compared with None. "
+            "The denotation of the templates is not decided."),
     "C11": ("typestate (DFA) on indexed successor collections + sibling-dispatch agreement + dependence analysis",
             "Static necessary conditions: successors that are indexed always come from a DeterministicFiniteAutomaton, "
             "dispatch agreement of the three intersection methods, Start -> epsilon depends on both operands, start "
@@ -67,7 +68,8 @@ CLAIMED = {
             "Static necessary conditions: six reserved names from the freshness loop against the right collection, "
             "wrapper edges on copies, pop edges for every (final) state over the alphabet including the new bottom "
             "marker, start edge pushes [start symbol, marker], set_valid strictly before is_valid_and_get (not in a "
-            "common loop), to_pda's two move kinds. Language equality is not decided."),
+            "common loop), to_pda's two move kinds, optional start state / start stack symbol compared with None (0 and '' "
+            "are names). Language equality is not decided."),
     "C05": ("exception-escape + interprocedural guard-dominance on token-list subscripts + exhaustiveness / writer-reader "
             "agreement of node classes and symbol tables + abstract path enumeration of the Thompson cases + fresh names",
             "Static necessary conditions: only MisformedRegexError is raised, token-list subscripts are length-guarded, "
@@ -86,7 +88,8 @@ CLAIMED = {
     "C15": ("ownership analysis of parse trees in the Earley steps + commit-on-success dominance + dependence analysis of "
             "CYK nodes + documented exception classes + sibling agreement of the derivation listings",
             "Static necessary conditions: chart states never share a mutable tree, children assigned only after a "
-            "successful expansion, CYK nodes carry both back-pointers, documented refusal exceptions, the leftmost and "
+            "successful expansion, CYK nodes carry both back-pointers, the accepted Earley state starts at position 0, "
+            "documented refusal exceptions, the leftmost and "
             "rightmost derivation listings extend the rewritten part by the same case analysis (mirror-sibling "
             "agreement). That the listed forms are the derivation is not decided beyond that agreement."),
     "C16": ("role-flow dependence analysis of the transducer constructions + forbidden-flow rule + pop-time marking "
@@ -104,18 +107,23 @@ CLAIMED = {
     "C18": ("ownership (unify on copies) + iterator-invalidation rule + DEREF typestate + structural coverage of copy / "
             "subsumes / unify + fresh dummy head",
             "Static necessary conditions: destructive unification only on fresh copies, no insertion into the chart "
-            "index being iterated, reads through dereferenced nodes, memoised copy, recursion over all features. "
+            "index being iterated, reads through dereferenced nodes, memoised copy, recursion over all features, a new chart "
+            "state is refused when a stored state subsumes it (not the converse). "
             "glb-ness and Earley completeness are not decided."),
     "C20": ("writer/reader agreement of constants + predicate-table evaluation of the text classifier + dependence "
             "analysis of from_ebnf + fresh reserved node names",
             "Static necessary conditions: graph attributes / separators / json fields / epsilon spelling / reserved "
             "names agree between to_networkx and from_networkx, text markers and slices agree and the reader's "
-            "classifier maps every written case back to its class, one minimised box per head. Value-level round-trip "
+            "classifier maps every written case back to its class, start and final marks read independently, one minimised "
+            "box per head. Value-level round-trip "
             "equality is not decided."),
     "C19": ("effects-and-ownership analysis (mod/alias dataflow over a type-resolved call graph) with cache-discipline "
             "rules",
             "Static analysis over all paths of every public non-mutator method (per concrete receiver class, callees "
-            "inlined): no operand write, cache disciplines D1-D5, fresh results of conversions. Decides those clauses "
+            "inlined): no operand write (undeclared private fields are judged as caches by their discipline: filled under "
+            "their own test, reset by every mutator that matters or per call, keyed by every argument the value depends "
+            "on, never updated outside the fill), cache disciplines D1-D5, fresh results of conversions, no operand-owned "
+            "container handed out as an element. Decides those clauses "
             "for every call history, which no finite test history does; value-level dependence on history is not "
             "decided."),
 }
